@@ -83,7 +83,7 @@ try:
     res["checks"] = {}
     for c in checks:
         t0 = time.time()
-        rr = sh(f"cd /verif && JMC_REPO={wt} JMC_EVID_DIR=/verif/work/seed-evidence/{prop}-{m} ./check {c} --tier {os.environ.get('TIER','quick')}", timeout=7200)
+        rr = sh(f"cd {os.environ.get('VERIF_DIR', '/verif')} && JMC_REPO={wt} JMC_EVID_DIR=/verif/work/seed-evidence/{prop}-{m} ./check {c} --tier {os.environ.get('TIER','quick')}", timeout=7200)
         lines = [l for l in rr.stdout.splitlines() if "VIOLATION" in l or "HARNESS" in l or l.startswith("  ")]
         res["checks"][c] = dict(exit=rr.returncode, violations=sum(1 for l in lines if "VIOLATION" in l),
                                 first=[l.strip()[:300] for l in lines[:4]], wall=round(time.time() - t0, 1))
